@@ -259,7 +259,18 @@ func AtomicCompareAndSwapUint32(p *uint32, o, n uint32) bool {
 type Pool struct {
 	New   func() interface{}
 	items []poolItem
+	owner *Sched // the execution the items belong to
 	real  sync.Pool
+}
+
+// fresh empties a pool that outlives an execution (a package-level pool of the
+// code under test): what an earlier execution put must not reach this one,
+// every execution starts from the same state. The real pool may drop its items
+// at any time, so this is one of its behaviours.
+func (p *Pool) fresh(s *Sched) {
+	if p.owner != s {
+		p.items, p.owner = nil, s
+	}
 }
 
 type poolItem struct {
@@ -274,6 +285,7 @@ func (p *Pool) Get() interface{} {
 		p.real.New = p.New
 		return p.real.Get()
 	}
+	p.fresh(s)
 	if n := len(p.items); n > 0 {
 		it := p.items[n-1]
 		p.items = p.items[:n-1]
@@ -295,6 +307,7 @@ func (p *Pool) Put(v interface{}) {
 		p.real.Put(v)
 		return
 	}
+	p.fresh(s)
 	var vc vclock
 	if !s.aborting && s.cur != nil {
 		vc = s.hb.release(s.cur)
